@@ -133,3 +133,16 @@ def rand_heap(rng, ncells, lens, max_refs=4, share=0.5):
                 refs.append(rng.randint(max(1, k - 6), k))
         heap.append(acell(rand_bits(rng, n), refs))
     return heap
+
+
+def dedup(heap, roots):
+    """content-canonical form of a children-first heap: equal cells (same type, bits and equal children) become one.
+    Pure function of the recorded content; no library value is used."""
+    canon, key_to_idx, out = [], {}, []
+    for c in heap:
+        key = (c['t'], c['n'], bytes(c['y']), tuple(canon[j - 1] for j in c['r']))
+        if key not in key_to_idx:
+            out.append({'t': c['t'], 'n': c['n'], 'y': list(c['y']), 'r': [canon[j - 1] for j in c['r']]})
+            key_to_idx[key] = len(out)
+        canon.append(key_to_idx[key])
+    return out, [canon[r - 1] for r in roots]
